@@ -2,9 +2,10 @@
 import os
 from tools.py2lean import gen_c09
 
-LEAN_TARGETS = ["EasyFEAVerif.Props.C09"]
-PROPS_MODULES = ["EasyFEAVerif.Props.C09"]
+LEAN_TARGETS = ["EasyFEAVerif.Props.C09", "EasyFEAVerif.Props.C09Curved"]
+PROPS_MODULES = ["EasyFEAVerif.Props.C09", "EasyFEAVerif.Props.C09Curved"]
 TRUSTED_EXTRA = [
+    "C09: the measure of curved embedded elements (Props/C09Curved.lean): the projected length / area element never exceeds the true one, with equality only for straight / flat elements, and the Gram determinant used since fix 8f7dd87 is the squared length / area element; the statements of Get_jacobian_e_pg and Get_weightedJacobian_e_pg are pinned (Gen/C09/Jacobian.lean)",
     "C09: numpy's einsum is read as the indexed sum its subscripts denote; the subscripts, operands, reduction axis and dispatch are extracted from the source on every run (tools/py2lean/gen_c09.py) and pinned by rfl-theorems",
     "C09: exactness of the quadrature of a polynomial density is C07's theorem (rule degree) composed with the identities proved here; the composition is stated, not re-proved per element",
 ]
